@@ -497,14 +497,19 @@ class Facts(object):
             if d is not None:
                 return self.value(src(d), depth - 1)
             return None
-        # a temporary defined as exactly this expression
+        # a temporary defined as exactly this expression, or as its negation
         for key, p in self.items:
             if key.startswith('(') and ' := ' in key:
                 ne = self._parsed(key)
-                if isinstance(ne, ast.NamedExpr) and src(ne.value) == src(e):
+                if not isinstance(ne, ast.NamedExpr):
+                    continue
+                d, neg = ne.value, False
+                while isinstance(d, ast.UnaryOp) and isinstance(d.op, ast.Not):
+                    d, neg = d.operand, not neg
+                if src(d) == src(e):
                     kk = self.knows(ne.target.id)
                     if kk is not None:
-                        return kk
+                        return kk != neg
         return None
 
     def kill(self, killed, texts_cache={}):
